@@ -166,6 +166,8 @@ def run(ctx):
                 o2.append("1" if v["needs_password"] else "0")
                 l3.append("ls.solid " + (",".join(map(str, nums)) or "-"))
                 o3.append("1" if solid else "0")
+                if bool(solid) != any(n > 1 for n in nums):
+                    ctx.fail("C10:solid", "archiveinfo().solid=%s but the folders hold %s members each" % (solid, nums), inp)
                 if unc != total:
                     ctx.fail("C10:total_size", "archiveinfo().uncompressed=%s, members sum to %d" % (unc, total), inp)
                 if blocks != len(folders):
